@@ -58,11 +58,17 @@ func (p propC05) Gen(r *simrt.Rand, idx int, tier string) any {
 		c.Sched = SchedSpec{Seed: r.Uint64(), Strategy: "seqbg", MaxSteps: 3_000_000}
 		c.World = genWorldSpec(r)
 		nk := 110 + r.Intn(200)
+		rounds := 2 + r.Intn(2)
+		if idx%64 == 25 {
+			// thousands of records (more than any page or batch size one might choose for the scan at Open)
+			nk = 1025 + r.Intn(1400)
+			rounds = 1 + r.Intn(2)
+		}
 		for i := 0; i < nk; i++ {
-			c.Keys = append(c.Keys, fmt.Sprintf("bulk-%03d", i))
+			c.Keys = append(c.Keys, fmt.Sprintf("bulk-%04d", i))
 		}
 		id := uint64(0)
-		for round := 0; round < 2+r.Intn(2); round++ {
+		for round := 0; round < rounds; round++ {
 			for i := 0; i < nk; i++ {
 				if round == 0 || r.Intn(4) == 0 {
 					id++
